@@ -24,3 +24,35 @@ Inductive op :=
    to_ullong/to_ulong (None when Bits > 64: not instantiable in etl), current == other *)
 Record obs := { o_string : list N; o_count : nat; o_all : bool; o_any : bool; o_none : bool;
                 o_ullong : option N; o_eq : bool }.
+
+(** * two fixed scripts that the harness also evaluates in a constant expression (op "ct"):
+    the history, and the predicate on its observations that the C++ script checks *)
+Definition ct_ops (bits : nat) : list op :=
+  [OSetAll; OFlipAll; OFlipAll; OSwap; OInt 9223372036854775809; OXor; ORefSet (bits - 1) true;
+   ORefFlip 0; OOr; OAndF].
+
+Definition ct_expect (bits : nat) : nat := if 64 <=? bits then 2 else 1.
+
+Definition ct_check (bits : nat) (r : list (option (obs * list bool))) : bool :=
+  match map (option_map fst) r with
+  | [Some a1; Some a2; Some a3; Some a4; Some a5; Some a6; Some _; Some _; Some a9; Some a10] =>
+      (o_all a1 && (o_count a1 =? bits)) && o_none a2 && (o_all a3 && (o_count a3 =? bits)) && o_none a4
+      && (o_count a5 =? ct_expect bits)
+      && ((o_count a6 =? bits - ct_expect bits) && negb (o_eq a6))
+      && (o_eq a9 && o_all a9) && (o_count a10 =? bits)
+  | _ => false
+  end.
+
+Definition ct_str_ops (bits : nat) : list op :=
+  [OStr [49; 48]%N 0 18446744073709551615 48 49; OTest (if 2 <=? bits then 1 else 0); ONot].
+
+Definition ct_str_check (bits : nat) (r : list (option (obs * list bool))) : bool :=
+  match r with
+  | [Some (a1, _); Some (_, q); Some (a3, _)] =>
+      (o_count a1 =? 1)
+      && (match o_ullong a1 with Some v => N.eqb v (if 2 <=? bits then 2 else 1) | None => 64 <? bits end)
+      && (match q with [true; true; true; false] => true | _ => false end)
+      && (length (o_string a3) =? bits)
+      && N.eqb (last (o_string a3) 0%N) (if 2 <=? bits then 49 else 48)
+  | _ => false
+  end.
